@@ -207,9 +207,14 @@ Inductive op2 :=
 | OMergeRaw (i : nat) (es : list raw_edge) (prefix : bool)
 | OSideSet (i : nat) (e : string) (lhs : bool) (x : string) (c : Z)
 | OSideIncr (i : nat) (e : string) (lhs : bool) (x : string) (by_ : Z)
-| OQuery (i : nat) (q : query).
+| OQuery (i : nat) (q : query)
+| OPoolUpdate (k : nat) (l : list item).         (* pool[k].update(l): normalise, then add count by count *)
 
 Definition getp (p : list side) (k : nat) : side := nth k p ∅.
+
+(** RXNSide.update: the argument is normalised, then added count by count *)
+Definition side_update (sd : side) (l : list item) : side :=
+  union_with (fun p q => Some (p + q)%positive) sd (normalize_items l).
 
 (** observables of the answers *)
 Definition tqerr (e : qerr) : tok :=
@@ -279,6 +284,7 @@ Definition step2 (w : world2) (o : op2) : world2 * option err * tok :=
   | OSideIncr i e lhs x b =>
       let '(s, er) := edit_side (getn (nets w) i) e lhs (fun sd => side_incr_g sd x b) in (setnets w i s, er, L [])
   | OQuery i q => (w, None, answer (getn (nets w) i) q)
+  | OPoolUpdate k l => (W2 (nets w) (<[ k := side_update (getp (pool w) k) l ]> (pool w)), None, L [])
   end.
 
 Definition init_world2 (n k : nat) : world2 := W2 (init_world n) (replicate k ∅).
@@ -295,11 +301,16 @@ Definition tviews (s : net) : tok :=
 Definition tnet2 (views : bool) (s : net) : tok :=
   if views then L [tnet s; tviews s] else L [tnet s].
 
-Fixpoint run_ops2 (views : bool) (w : world2) (ops : list op2) : list tok :=
+(** the first [skip] operations (a fixed preamble) are executed but not observed *)
+Fixpoint run_ops2 (views : bool) (skip : nat) (w : world2) (ops : list op2) : list tok :=
   match ops with
   | [] => []
   | o :: os =>
       let '(w', er, a) := step2 w o in
-      L [terr er; a; tlist (tnet2 views) (nets w'); tlist tside (pool w')] :: run_ops2 views w' os
+      match skip with
+      | S k => run_ops2 views k w' os
+      | O => L [terr er; a; tlist (tnet2 views) (nets w'); tlist tside (pool w')] :: run_ops2 views O w' os
+      end
   end.
-Definition run2 (views : bool) (n k : nat) (ops : list op2) : tok := L (run_ops2 views (init_world2 n k) ops).
+Definition run2 (views : bool) (n k skip : nat) (ops : list op2) : tok :=
+  L (run_ops2 views skip (init_world2 n k) ops).
